@@ -412,76 +412,76 @@ def Folder.mapLiveFile (G : Folder) (f : String) (g : File → File) : Folder :=
 def Folder.mapFile (G : Folder) (f : String) (g : File → File) : Folder :=
   { G with files := mapNamed f g G.files }
 
-def Node.step (n : Node) : Op → Node × Resp
-  | .tick => (n.tick, .ok)
-  | .shutdown => if n.power = .on then (n.powerOff, .success) else (n, .failure)
-  | .startup => if n.power = .off then (n.powerOn, .success) else (n, .failure)
-  | .reset => if n.power = .on then ({ n with resetting := true }.powerOff, .success) else (n, .failure)
-  | .osScan => if n.power = .on then ({ n with scanCd := max n.scanDur 1 }, .success) else (n, .failure)
-  | .sw isApp name r =>
-    if n.power ≠ .on then (n, .failure) else
-    match n.findSw isApp name with
-    | none => (n, .unreachable)
-    | some x =>
-      if !r.known isApp then (n, .unreachable)
-      else if !r.allowed x then (n, .failure)
-      else (n.mapSws (Sw.request isApp name r), Resp.ofBool (x.handle r).2)
-  | .swSet name h => (n.mapSws (fun x => if x.name = name then x.setHealth h.toSwH else x), .ok)
-  | .appInstall name => (n.mapSws (fun x => if x.name = name then x.install else x), .ok)
+/-- State effect of an operation. Every request route below the node carries the node-is-ON validator; the
+updates are written item-wise ("every live folder named F", "every item named `name` that accepts the request"),
+which under unique names (`Node.wf`) is exactly the routed object. -/
+def Node.apply (n : Node) : Op → Node
+  | .tick => n.tick
+  | .shutdown => if n.power = .on then n.powerOff else n
+  | .startup => if n.power = .off then n.powerOn else n
+  | .reset => if n.power = .on then { n with resetting := true }.powerOff else n
+  | .osScan => if n.power = .on then { n with scanCd := max n.scanDur 1 } else n
+  | .sw isApp name r => if n.power = .on then n.mapSws (Sw.request isApp name r) else n
+  | .swSet name h => n.mapSws (fun x => if x.name = name then x.setHealth h.toSwH else x)
+  | .appInstall name => n.mapSws (fun x => if x.name = name then x.install else x)
   | .appRun name =>
-    if n.power = .on then (n.mapSws (fun x => if x.name = name ∧ x.isApp then x.startUp else x), .ok) else (n, .ok)
-  | .folder F r =>
-    if n.power ≠ .on then (n, .failure) else
-    match n.findLiveFolder F with
-    | none => (n, .failure)
-    | some G => (n.mapLiveFolder F (fun G => (G.handle r).1), Resp.ofBool (G.handle r).2)
-  | .folderDelete F f =>
-    if n.power ≠ .on then (n, .failure) else
-    match n.findLiveFolder F with
-    | none => (n, .failure)
-    | some G =>
-      match findLive f G.files with
-      | none => (n, .failure)
-      | some _ => (n.mapLiveFolder F (fun G => G.mapLiveFile f File.delete), .success)
+    if n.power = .on then n.mapSws (fun x => if x.name = name ∧ x.isApp = true then x.startUp else x) else n
+  | .folder F r => if n.power = .on then n.mapLiveFolder F (fun G => (G.handle r).1) else n
+  | .folderDelete F f => if n.power = .on then n.mapLiveFolder F (fun G => G.mapLiveFile f File.delete) else n
   | .file F f r =>
-    if n.power ≠ .on then (n, .failure) else
+    if n.power = .on then n.mapLiveFolder F (fun G => G.mapLiveFile f (fun x => (x.handle r).1)) else n
+  | .fsDeleteFile F f => if n.power = .on then n.mapLiveFolder F (fun G => G.mapLiveFile f File.delete) else n
+  | .fsDeleteFolder F => if n.power = .on ∧ F ≠ "root" then n.mapLiveFolder F Folder.delete else n
+  | .fsRestoreFile F f => if n.power = .on then n.mapLiveFolder F (fun G => G.mapFile f File.restore) else n
+  | .fsRestoreFolder F => if n.power = .on then n.mapFolder F Folder.restore else n
+  | .fileSet F f h => n.mapFolder F (fun G => G.mapFile f (fun x => { x with actual := h }))
+
+/-- The `RequestResponse.status` of an operation (`ok` for ticks and Python-API calls). -/
+def Node.respond (n : Node) : Op → Resp
+  | .tick | .swSet _ _ | .appInstall _ | .appRun _ | .fileSet _ _ _ => .ok
+  | .shutdown | .reset | .osScan => Resp.ofBool (n.power = .on)
+  | .startup => Resp.ofBool (n.power = .off)
+  | .sw isApp name r =>
+    if n.power ≠ .on then .failure else
+    match n.findSw isApp name with
+    | none => .unreachable
+    | some x =>
+      if !r.known isApp then .unreachable
+      else if !r.allowed x then .failure
+      else Resp.ofBool (x.handle r).2
+  | .folder F r =>
+    if n.power ≠ .on then .failure else
     match n.findLiveFolder F with
-    | none => (n, .failure)
+    | none => .failure
+    | some G => Resp.ofBool (G.handle r).2
+  | .folderDelete F f | .fsDeleteFile F f =>
+    if n.power ≠ .on then .failure else
+    match n.findLiveFolder F with
+    | none => .failure
+    | some G => Resp.ofBool (findLive f G.files).isSome
+  | .file F f r =>
+    if n.power ≠ .on then .failure else
+    match n.findLiveFolder F with
+    | none => .failure
     | some G =>
       match findLive f G.files with
-      | none => (n, .failure)
-      | some x => (n.mapLiveFolder F (fun G => G.mapLiveFile f (fun x => (x.handle r).1)), Resp.ofBool (x.handle r).2)
-  | .fsDeleteFile F f =>
-    if n.power ≠ .on then (n, .failure) else
-    match n.findLiveFolder F with
-    | none => (n, .failure)
-    | some G =>
-      match findLive f G.files with
-      | none => (n, .failure)
-      | some _ => (n.mapLiveFolder F (fun G => G.mapLiveFile f File.delete), .success)
+      | none => .failure
+      | some x => Resp.ofBool (x.handle r).2
   | .fsDeleteFolder F =>
-    if n.power ≠ .on then (n, .failure) else
-    match n.findLiveFolder F with
-    | none => (n, .failure)
-    | some _ => if F = "root" then (n, .failure) else (n.mapLiveFolder F Folder.delete, .success)
+    if n.power ≠ .on then .failure else Resp.ofBool ((n.findLiveFolder F).isSome && F != "root")
   | .fsRestoreFile F f =>
-    if n.power ≠ .on then (n, .failure) else
+    if n.power ≠ .on then .failure else
     match n.findLiveFolder F with
-    | none => (n, .failure)
-    | some G =>
-      match findAny f G.files with
-      | none => (n, .failure)
-      | some _ => (n.mapLiveFolder F (fun G => G.mapFile f File.restore), .success)
+    | none => .failure
+    | some G => Resp.ofBool (findAny f G.files).isSome
   | .fsRestoreFolder F =>
-    if n.power ≠ .on then (n, .failure) else
-    match n.findFolder F with
-    | none => (n, .failure)
-    | some _ => (n.mapFolder F Folder.restore, .success)
-  | .fileSet F f h => (n.mapFolder F (fun G => G.mapFile f (fun x => { x with actual := h })), .ok)
+    if n.power ≠ .on then .failure else Resp.ofBool (n.findFolder F).isSome
+
+def Node.step (n : Node) (op : Op) : Node × Resp := (n.apply op, n.respond op)
 
 def Node.run (n : Node) : List Op → Node
   | [] => n
-  | op :: ops => (n.step op).1.run ops
+  | op :: ops => (n.apply op).run ops
 
 /-- names unique (the abstraction under which "by name" = "the routed object"). -/
 def Node.wf (n : Node) : Bool :=
